@@ -4,11 +4,11 @@ Import ListNotations.
 From AgileV Require Import Base.Prelude C12.Model.
 
 Definition E_short : senv :=
-  {| eid := 0; nag := 1; lens := [1]; mode := MTerm; leave := [None]; kind := KVector; unaligned := false |}.
+  {| eid := 0; nag := 1; lens := [1]; mode := MTerm; leave := [None]; kind := KVector; unaligned := false; join := [] |}.
 Definition E_leaver : senv :=
-  {| eid := 0; nag := 2; lens := [3]; mode := MTerm; leave := [Some 1; None]; kind := KVector; unaligned := false |}.
+  {| eid := 0; nag := 2; lens := [3]; mode := MTerm; leave := [Some 1; None]; kind := KVector; unaligned := false; join := [] |}.
 Definition E_trunc : senv :=
-  {| eid := 0; nag := 2; lens := [1]; mode := MTrunc; leave := [None; None]; kind := KVector; unaligned := false |}.
+  {| eid := 0; nag := 2; lens := [1]; mode := MTrunc; leave := [None; None]; kind := KVector; unaligned := false; join := [] |}.
 Definition started (E : senv) : sstate := fst (env_reset E init_state no_rarg).
 
 (* the pinned worker returned the terminal observation, not the first one of the new episode *)
@@ -47,7 +47,7 @@ Qed.
 (* the tree without fixes/C12-worker-done-test-by-key.patch: an environment whose truncation dict lists
    the agents in another order is not reset although every agent has finished *)
 Definition E_unaligned : senv :=
-  {| eid := 0; nag := 2; lens := [1]; mode := MMixed; leave := [None; None]; kind := KVector; unaligned := true |}.
+  {| eid := 0; nag := 2; lens := [1]; mode := MMixed; leave := [None; None]; kind := KVector; unaligned := true; join := [] |}.
 Lemma zip_autoreset_refuted_lemma :
   exists E agents s acts,
     no_agent_left (fst (raw_step E s acts)) = true /\
